@@ -37,6 +37,7 @@ def bodyOK : List BodyOp → Bool → Bool
   | [], _ => true
   | .operate :: rest, need => bodyOK rest need
   | .raise :: rest, need => bodyOK rest need
+  | .raiseExc _ :: rest, need => bodyOK rest need
   | .close :: rest, _ => bodyOK rest false
   | .open :: rest, need => !need && bodyOK rest true
 
@@ -198,6 +199,7 @@ theorem interact_pres (hp : Tol cfg P) (reads : Bool) (tag : String) (s : St) (t
             · rw [if_pos hq]; exact h'
             · rw [if_neg hq]; exact hp.tclose _ h'
           · exact h'
+        · exact h'
         · exact h'
         · exact h'
 
@@ -832,11 +834,15 @@ theorem runEnter_unfold (hc : cfg.code.enterP = enterP ∨ cfg.code.enterP = ent
   · exact runEnter_unfold_flat hc ht s tape
   · exact runEnter_unfold_nested hc ht s tape
 
-theorem runExit_unfold (hc : cfg.code.exitP = exitP) (s : St) (tape : List Ev) :
-    (runExit cfg s tape).st = (runClose cfg s tape).st ∧ (runExit cfg s tape).out = (runClose cfg s tape).out ∧
-    (runExit cfg s tape).tape = (runClose cfg s tape).tape := by
+/-- without early-return branches `__exit__` runs its main program whatever the with-body ended with -/
+theorem exitProg_plain {c : Code} (hx : c.exitOn = []) (pending : Outcome) : exitProg c pending = c.exitP := by
+  unfold exitProg; cases pending <;> simp [hx]
+
+theorem runExit_unfold (hc : cfg.code.exitP = exitP) (hx : cfg.code.exitOn = []) (pending : Outcome) (s : St) (tape : List Ev) :
+    (runExit cfg pending s tape).st = (runClose cfg s tape).st ∧ (runExit cfg pending s tape).out = (runClose cfg s tape).out ∧
+    (runExit cfg pending s tape).tape = (runClose cfg s tape).tape := by
   unfold runExit
-  rw [hc]
+  rw [exitProg_plain hx, hc]
   unfold exitP
   obtain ⟨p1, p2, p3⟩ := execProg_single (cfg := cfg) (execStmt1 cfg) (.simple ⟨.always, .callClose⟩) s tape
   rw [p1, p2, p3]
@@ -859,6 +865,9 @@ theorem code_fixed_parts (hc : cfg.code = codeFixed cfg.stack ∨ cfg.code = cod
   rcases hc with hc | hc <;> rw [hc]
   · exact ⟨rfl, Or.inl rfl, rfl⟩
   · exact ⟨rfl, Or.inr rfl, rfl⟩
+
+theorem code_fixed_exitOn (hc : cfg.code = codeFixed cfg.stack ∨ cfg.code = codeFixed2 cfg.stack) : cfg.code.exitOn = [] := by
+  rcases hc with hc | hc <;> rw [hc] <;> rfl
 
 theorem inv_fresh : Inv cfg {} :=
   ⟨⟨⟨by simp, by simp, by simp, rfl, fun _ => rfl⟩, rfl⟩, fun _ => ⟨rfl, rfl, rfl, rfl, rfl, rfl⟩⟩
@@ -917,6 +926,8 @@ theorem inv_body (hfix : FixedCfg cfg) : ∀ (body : List BodyOp) (s : St) (tape
         exact ⟨h1, fun _ => ⟨true, h2, hb'.2⟩⟩
       | raise =>
         exact ⟨h, fun hok => by simp [runBodyOp, R.ok] at hok⟩
+      | raiseExc e =>
+        exact ⟨h, fun hok => by simp [runBodyOp, R.ok] at hok⟩
     unfold runBody
     by_cases hok : (runBodyOp cfg b s tape).ok = true
     · simp only [hok, if_true]
@@ -941,7 +952,8 @@ theorem inv_with (hfix : FixedCfg cfg) (s : St) (tape : List Ev) (body : List Bo
       rw [e1]; simp [hok]
     simp only [hek, Bool.not_true, Bool.false_eq_true, if_false]
     have hbody := inv_body hfix body _ (runEnter cfg { s with needClose := true } tape).tape true (hst ▸ ho1) (hst ▸ ho2) hb
-    obtain ⟨x1, _, _⟩ := runExit_unfold hcx (runBody cfg body (runEnter cfg { s with needClose := true } tape).st
+    obtain ⟨x1, _, _⟩ := runExit_unfold hcx (code_fixed_exitOn hfix.1) (runBody cfg body (runEnter cfg { s with needClose := true } tape).st
+      (runEnter cfg { s with needClose := true } tape).tape).out (runBody cfg body (runEnter cfg { s with needClose := true } tape).st
       (runEnter cfg { s with needClose := true } tape).tape).st
       (runBody cfg body (runEnter cfg { s with needClose := true } tape).st (runEnter cfg { s with needClose := true } tape).tape).tape
     have hr := close_released hfix _ (runBody cfg body (runEnter cfg { s with needClose := true } tape).st
